@@ -60,6 +60,11 @@ partial def loop (h : IO.FS.Stream) (s : St) : IO Unit := do
       let sro := g.sro x.toNat!
       IO.println s!"sro {shw sro} | iro {shw (sro.filter s.isI)} | imp {shw (sortN sro)}"
       loop h s
+    | ["q1", x] =>          -- ONE question `x.isOrExtends(t)` (t after the colon), nothing else asked of x
+      let g := view s
+      let t := (nums rest).headD 0
+      IO.println (if (g.sro x.toNat!).contains t || t == 0 then "true" else "false")
+      loop h s
     | ["fresh"] => IO.println s!"{freshHolds s.g}"; loop h s
     | _ => IO.println "bad"; loop h s
   | _ => IO.println "bad"; loop h s
